@@ -4,9 +4,12 @@ PAR_ENV = {"EGGLOG_PARALLEL_INTER_CONTAINER_CUTOFF": "0", "EGGLOG_PARALLEL_INTRA
 
 CFG = {
     "tier_a": ["UFSeq", "MergeArms"],
-    "model_targets": ["Cont/Env.vo"],
+    "model_targets": ["Cont/Env.vo", "Egg/Rules.vo"],
     "proof_targets": ["Props/C14.vo"],
     "harness": [
+        # nested containers of depth 2-4 with alternating kinds and all kind-declaration orders,
+        # rewritten in place: semi-naive vs naive engine in lockstep (the family of h_egg)
+        {"bin": "h_egg", "name": "h_egg_nested", "prefix": "cases_egg", "extra": ["--prop", "C14", "--cases", "12"]},
         # serial engine, default cut-offs: sessions + model cases
         {"bin": "h_cont", "name": "h_cont", "sub": "cont", "prefix": "cases_cont"},
         # 4 threads, container cut-offs 0: parallel inter-container map and the parallel
